@@ -184,7 +184,7 @@ class ClientInit(Suite):
                     tuple(s_["ans"]["k"] + ("/" + s_["raise_on"]["where"] if s_.get("raise_on") else "") for s_ in case["steps"]))
         ro = case.get("raise_on") or {}
         return (case["ans"]["k"], cls.entry(case), cls.scenario({k_: v_ for k_, v_ in case.items() if k_ != "debug"}), ro.get("where"), ro.get("cls"), case.get("wbuf"), bool(case.get("filler")),
-                str(case.get("take")), type(case.get("pref")).__name__, bool(case.get("sup_tuple")),
+                str(case.get("take")), type(case.get("pref")).__name__, bool(case.get("sup_tuple")), case.get("sup_kind"),
                 type(case["ans"].get("code")).__name__, type(case["ans"].get("msg")).__name__)
 
     def extras2(self, rng, budget):
@@ -234,6 +234,13 @@ class ClientInit(Suite):
             for pref in (None, sup[-1]):
                 for ans in [good, {"k": "version", "s": sup[-1]}] + failures:
                     add(sup, pref, ans, sup_tuple=True)
+        # ... and as every other sequence type the library accepts as the caller's list, through both entry points
+        for kind in V.SEQUENCE_KINDS[1:]:
+            for sup in (L, ["1999-12-31"], ["2024-11-05"], ["2024-10-07"], ["2025-03-26", "2025-06-18"]):
+                for pref in (None, sup[-1], V.OUTSIDE):
+                    for ans in [good, {"k": "version", "s": sup[-1]}, {"k": "version", "s": "2025-06-18"}] + failures[:3]:
+                        for track in (True, False):
+                            add(sup, pref, ans, sup_kind=kind, track=track)
         for code in ("-32602", -32602.0, True, False, None, [], {}, 2**70, -32602):
             for msg in ("protocol version", "boom", 7, None, [], {"protocol version": 1}, True, ""):
                 add(L, None, {"k": "rpc", "code": code, "msg": msg})
@@ -526,8 +533,8 @@ class ClientInit(Suite):
             tags.insert(0, "stream-raises:" + case["raise_on"]["where"] + ":" + (cls_ if cls_ in ("Unprintable", "TimeoutError") else "other-class"))
         if case.get("pref") is not None and not isinstance(case["pref"], str):
             tags.insert(0, "preferred:" + type(case["pref"]).__name__)
-        if case.get("sup_tuple"):
-            tags.insert(0, "list-as-tuple")
+        if case.get("sup_tuple") or case.get("sup_kind"):
+            tags.insert(0, "list-as-" + (case.get("sup_kind") or "tuple"))
         if case["ans"]["k"] == "rpc" and type(case["ans"].get("code")) is not int:
             tags.insert(0, "error-code:" + type(case["ans"].get("code")).__name__)
 
@@ -896,5 +903,38 @@ class HelperAliases(Suite):
         return "helper-aliases/" + case["op"]
 
 
+class StdioInitialize(ClientInit):
+    """The convenience entry point `stdio_client_with_initialize` (spawn + initialize + tracking) with a scripted child behind the
+    `anyio.open_process` seam: the caller's list as every accepted sequence type x preferred x the child's answer."""
+
+    name = "stdio-initialize"
+
+    def cases(self, ctx, budget):
+        out = []
+        lists = [None, ["2025-06-18"], ["2024-11-05"], ["2024-10-07"], ["2025-03-26", "2024-11-05"], ["1999-12-31", "2025-06-18"]]
+        for sup in lists:
+            eff = sup if sup is not None else V.server_supported()
+            for kind in (V.SEQUENCE_KINDS if sup is not None else [None]):
+                for pref in dict.fromkeys([None, eff[-1], V.OUTSIDE]):
+                    for ans in [{"k": "version", "s": v} for v in dict.fromkeys([eff[0], eff[-1], "2025-06-18", "2031-01-01"])] + [{"k": "silence"}]:
+                        if budget == "quick" and ans["k"] == "silence" and (kind not in (None, "tuple") or pref is not None):
+                            continue
+                        out.append({"sup": sup, "sup_kind": kind, "pref": pref, "ans": ans, "track": False, "D": 1024, "at": 1})
+        return V.assign_debug(out, lambda c: (c["ans"]["k"], c.get("sup_kind"), c["sup"] is None), ctx=ctx, name=self.name)
+
+    def impl_batch(self, cases):
+        obs = V.run_stdio_init(cases)
+        for c, o in zip(cases, obs):
+            if c["ans"]["k"] == "version" and o["trace"][:1] and o["trace"][0]["w"] == "initialize":
+                o["trace"].insert(1, {"w": "answered"})  # the scripted child answers right after it saw the request
+        return obs
+
+    def model_line(self, case):
+        return {"m": "version", "op": "client", "sup": case["sup"], "pref": self.model_pref(case), "ans": self.model_answer(case)}
+
+    def kind(self, case, o):
+        return "stdio-initialize/" + ("list-as-" + case["sup_kind"] if case.get("sup_kind") else "default-list") + "/" + str(o.get("outcome"))
+
+
 def suites():
-    return [ClientInit(), SlowWriter(), ClientSequence(), BatchingGuard(), HelperAliases()]
+    return [ClientInit(), SlowWriter(), ClientSequence(), StdioInitialize(), BatchingGuard(), HelperAliases()]
